@@ -7,6 +7,7 @@ import (
 	"go/ast"
 	"go/types"
 	"sort"
+	"strings"
 
 	"verif/sa/internal/core"
 )
@@ -57,6 +58,90 @@ func (c *Ctx) info(fi *core.FuncInfo) *types.Info { return fi.Pkg.TypesInfo }
 
 // root returns a function of the root package by name, or nil.
 func (c *Ctx) root(name string) *core.FuncInfo { return c.P.Func("", name) }
+
+// complexFn: the predicate "this analysed schema is complex", found by role rather than by name: the method of
+// AnalyzedSchema without parameters, returning bool, that is called below Flatten and whose body reads the three
+// exported flags IsSimpleSchema, IsArray and IsMap.
+func (c *Ctx) complexFn() *core.FuncInfo {
+	if fi := c.root("AnalyzedSchema.isAnalyzedAsComplex"); fi != nil {
+		return fi
+	}
+	var found *core.FuncInfo
+	for _, fi := range c.P.SortedFuncs() {
+		sig := fi.Obj.Type().(*types.Signature)
+		if sig.Recv() == nil || !core.IsModType(sig.Recv().Type(), "AnalyzedSchema") || sig.Params().Len() != 0 || sig.Results().Len() != 1 || !core.IsBool(sig.Results().At(0).Type()) {
+			continue
+		}
+		reads := map[string]bool{}
+		ast.Inspect(fi.Decl.Body, func(n ast.Node) bool {
+			if sel, ok := n.(*ast.SelectorExpr); ok {
+				reads[sel.Sel.Name] = true
+			}
+			return true
+		})
+		if reads["IsSimpleSchema"] && reads["IsArray"] && reads["IsMap"] && len(fi.Decl.Body.List) == 1 {
+			if found != nil {
+				return nil // ambiguous
+			}
+			found = fi
+		}
+	}
+	return found
+}
+
+// isComplexCall: the call is a call of the complexity predicate.
+func (c *Ctx) isComplexCall(fi *core.FuncInfo, call *ast.CallExpr) bool {
+	cx := c.complexFn()
+	if cx == nil {
+		return false
+	}
+	cal := c.P.StaticCallee(fi, call)
+	return cal != nil && cal == cx.Obj
+}
+
+// inlineNamingPhase: the phase of Flatten that names inline schemas, by role: the function below Flatten (other
+// than the namer itself) that calls the namer inside a loop over the keys delivered by sortref.DepthFirst.
+func (c *Ctx) inlineNamingPhase(namer *core.FuncInfo) *core.FuncInfo {
+	if fi := c.root("nameInlinedSchemas"); fi != nil {
+		return fi
+	}
+	if namer == nil {
+		return nil
+	}
+	var found *core.FuncInfo
+	for _, fi := range c.P.SortedFuncs() {
+		if fi == namer || fi.Pkg.PkgPath != core.ModPath {
+			continue
+		}
+		callsNamer, depthFirst := false, false
+		for _, call := range calls(fi.Decl.Body) {
+			cal := c.P.CalleeAny(fi, call)
+			if cal == nil {
+				continue
+			}
+			if cal == namer.Obj {
+				callsNamer = true
+			}
+			if cal.Name() == "DepthFirst" && cal.Pkg() != nil && strings.HasSuffix(cal.Pkg().Path(), "/sortref") {
+				// over the schema index, not over the planned pointer replacements
+				if len(call.Args) == 1 {
+					if sel, ok := core.Unparen(call.Args[0]).(*ast.SelectorExpr); ok {
+						if fv := core.FieldOf(c.info(fi), sel); fv != nil && strings.HasSuffix(core.OwnerStruct(c.P, fv), ".Spec") {
+							depthFirst = true
+						}
+					}
+				}
+			}
+		}
+		if callsNamer && depthFirst {
+			if found != nil {
+				return nil
+			}
+			found = fi
+		}
+	}
+	return found
+}
 
 // need resolves an anchor; emits an undecided obligation when missing.
 func (c *Ctx) need(prop, rule, pkg, name string) *core.FuncInfo {
